@@ -17,13 +17,15 @@ PROP = 'C11'
 LEVEL = 'model_checking'
 ASSUMPTIONS = [
     'fingerprint = nets (op, op_param ids, arg/dest wire identities), wires (identity, class, name, bitwidth, reset_value, '
-    'Const value), memories (identity, id, name, widths, asynchronous flag), ROM data identity',
+    'Const value), memories (identity, id, name, widths, asynchronous flag, recorded read/write port nets), ROM data identity, '
+    'legal_ops, rtl_assert_dict',
     'mutating a user-owned romdata list in place is not a block edit (not asserted)',
     'two enabled writes to one address in a cycle excluded (undefined)',
     'stubs/merge points of vf/simdrv.py',
 ]
 FUNCS = ['copy', 'synth', 'synth_unmerged', 'opt']
-EDITS = ['add_logic', 'rename', 'simulate_write', 'add_read_port', 'edit_result', 'rename_result', 'rename_source_foreign']
+EDITS = ['add_logic', 'rename', 'simulate_write', 'add_read_port', 'edit_result', 'rename_result', 'rename_source_foreign',
+         'legal_ops_result', 'legal_ops_source']
 
 
 def bounds(tier):
@@ -80,13 +82,19 @@ def fingerprint(b):
                     getattr(w, 'val', None)) for w in b.wirevector_set)
     nets = sorted((n.op, tuple(id(x) if not isinstance(x, int) else x for x in (n.op_param or ())),
                    tuple(id(a) for a in n.args), tuple(id(d) for d in n.dests)) for n in b.logic)
+    def ports(lst):
+        # a memory's own record of its ports (area/path analysis read it): the nets by identity of their wires
+        return tuple((n.op, tuple(id(a) for a in n.args), tuple(id(d) for d in n.dests)) for n in lst)
     mems = sorted((id(n.op_param[1]), n.op_param[1].id, n.op_param[1].name, n.op_param[1].bitwidth,
                    n.op_param[1].addrwidth, n.op_param[1].asynchronous,
-                   id(n.op_param[1].data) if isinstance(n.op_param[1], RomBlock) else None)
+                   id(n.op_param[1].data) if isinstance(n.op_param[1], RomBlock) else None,
+                   ports(getattr(n.op_param[1], 'readport_nets', ())), ports(getattr(n.op_param[1], 'writeport_nets', ())),
+                   getattr(n.op_param[1], 'num_ports', None))
                   for n in b.logic_subset('m@'))
     byname = sorted((k, id(v)) for k, v in b.wirevector_by_name.items())
     membyname = sorted((k, id(v)) for k, v in getattr(b, 'memblock_by_name', {}).items())
-    return (wires, nets, mems, byname, membyname)
+    asserts = sorted((id(k), id(v)) for k, v in getattr(b, 'rtl_assert_dict', {}).items())
+    return (wires, nets, mems, byname, membyname, tuple(sorted(b.legal_ops)), asserts)
 
 
 def decoy_block():
@@ -159,7 +167,7 @@ def same_trace(ob, A, before, after, assume, v, site):
 def apply_edit(case, A, B):
     """a PyRTL-API edit or simulation on one block; returns the block that must be unaffected"""
     e = case['edit']
-    if e in ('edit_result', 'rename_result'):
+    if e in ('edit_result', 'rename_result', 'legal_ops_result'):
         target, other = B, A
     else:
         target, other = A, B
@@ -190,6 +198,10 @@ def apply_edit(case, A, B):
                     o <<= m[ra]
                 except pyrtl.PyrtlError:   # port limit reached: the edit is refused, nothing changes
                     o <<= 0
+        elif e in ('legal_ops_result', 'legal_ops_source'):
+            # the documented legal_ops member edited in place (as before lowering one block to simpler primitives)
+            target.legal_ops.discard('*')
+            target.legal_ops.add('q')
         elif e == 'simulate_write':
             sim = pyrtl.Simulation(block=target)
             for t in range(3):
